@@ -502,8 +502,10 @@ func c04Pipe(a [][]byte) *Case {
 	// mode 0: plain batches (compared with the pipelined-reading model); 1: slow answers and call timeouts;
 	// 2, 3: additionally PipelineClient.ReadTimeout = 4s, so an answer that starts later than that makes the reader give
 	// the connection up (the late response must not be handed to a later request); 3 issues a second wave of
-	// requests after the late answers. Modes 1..3 are judged by the monitor only.
-	mode := int(a[0][0]) % 4
+	// requests after the late answers; 4: slow uploads — DoTimeout(3s) calls whose request body stream the harness holds
+	// back, released before or after the call's deadline (the deadline expires while the writer is inside w.req.Write),
+	// with further requests queued behind and issued afterwards. Modes 1..4 are judged by the monitor only.
+	mode := int(a[0][0]) % 5
 	timed := mode != 0
 	type pcall struct {
 		tag     int
@@ -521,9 +523,15 @@ func c04Pipe(a [][]byte) *Case {
 	var viol [][2]string
 	bub := inBubble(func() {
 		pc := &fasthttp.PipelineClient{Addr: "p04.test:80", MaxConns: 1, MaxPendingRequests: 16, MaxIdleConnDuration: 1000 * time.Second, Logger: nopLogger{}}
-		if mode >= 2 {
+		if mode == 2 || mode == 3 {
 			pc.ReadTimeout = 4 * time.Second
 		}
+		type heldBody struct {
+			b     *gatedBody
+			after int  // released after that many further calls were issued
+			late  bool // … and after the call's deadline has passed
+		}
+		var held []*heldBody
 		n := 0
 		pc.Dial = func(string) (net.Conn, error) {
 			n++
@@ -533,9 +541,15 @@ func c04Pipe(a [][]byte) *Case {
 		}
 		for i := 0; i+1 < len(a[1]) && len(calls) < 12; i += 2 {
 			c := &pcall{tag: len(calls) + 1, method: int(a[1][i]) % 3, timeout: 1000 * time.Second}
-			if timed {
+			if timed && mode != 4 {
 				c.delay = []int{0, 0, 2, 8}[int(a[1][i+1])%4]
 				c.timeout = []time.Duration{1000 * time.Second, 5 * time.Second, 3 * time.Second}[int(a[1][i+1]/4)%3]
+			}
+			var upload *gatedBody
+			if f := int(a[1][i+1]); mode == 4 && f%3 == 0 {
+				c.method, c.timeout = 1, 3*time.Second
+				upload = newGatedBody("x")
+				held = append(held, &heldBody{b: upload, after: 1 + (f/6)%3, late: (f/3)%2 == 1})
 			}
 			calls = append(calls, c)
 			go func() {
@@ -551,7 +565,9 @@ func c04Pipe(a [][]byte) *Case {
 				resp := fasthttp.AcquireResponse()
 				req.SetRequestURI(fmt.Sprintf("http://p04.test/p?t=%d&d=%d", c.tag, c.delay))
 				req.Header.SetMethod([]string{"GET", "POST", "HEAD"}[c.method])
-				if c.method == 1 {
+				if upload != nil {
+					req.SetBodyStream(upload, 1)
+				} else if c.method == 1 {
 					req.SetBodyString("x")
 				}
 				err := pc.DoTimeout(req, resp, c.timeout)
@@ -566,6 +582,50 @@ func c04Pipe(a [][]byte) *Case {
 			if mode == 3 && i+1 == (len(a[1])/4)*2 {
 				advance(12 * time.Second) // second wave: issued after the late answers of the first
 			}
+			for k := 0; k < len(held); {
+				h := held[k]
+				if h.b == upload {
+					k++
+					continue
+				}
+				h.after--
+				if h.after > 0 {
+					k++
+					continue
+				}
+				if h.late {
+					advance(4 * time.Second)
+				}
+				close(h.b.gate)
+				settle()
+				held = append(held[:k], held[k+1:]...)
+			}
+		}
+		for _, h := range held {
+			if h.late {
+				advance(4 * time.Second)
+			}
+			close(h.b.gate)
+			settle()
+		}
+		if mode == 4 {
+			// one more request behind everything: it also flushes a batch the writer left in its buffer because the
+			// last item of the batch was deadline-expired work (client.go writer: the `continue` skips the flush arming)
+			c := &pcall{tag: len(calls) + 1, timeout: 1000 * time.Second}
+			calls = append(calls, c)
+			go func() {
+				req := fasthttp.AcquireRequest()
+				resp := fasthttp.AcquireResponse()
+				req.SetRequestURI(fmt.Sprintf("http://p04.test/p?t=%d&d=0", c.tag))
+				err := pc.DoTimeout(req, resp, c.timeout)
+				mu.Lock()
+				c.err, c.done = err, true
+				if err == nil {
+					c.gotTag, c.body = string(resp.Header.Peek("X-Tag")), string(resp.Body())
+				}
+				mu.Unlock()
+			}()
+			settle()
 		}
 		advance(1500 * time.Second)
 		advance(1500 * time.Second)
@@ -724,7 +784,7 @@ func init() {
 		ID: "C04",
 		Rule: "host: 2..10 sequential tagged calls on a HostClient (GET/POST/HEAD/PUT x body 0..5000 x server: full keep-alive | full close | cut inside head | cut after k body bytes | stall inside head | stall after k body bytes (tail arrives later) " +
 			"x request Connection: close x streamed body closed after 0|1|half|k|all bytes), StreamResponseBody with MaxResponseBodySize 0|64|200, LIFO/FIFO; " +
-			"pipe: 2..12 pipelined GET/POST/HEAD requests written in issue order, answered in order, with and without slow answers, call timeouts and a PipelineClient.ReadTimeout shorter than the slowest answers (late responses), optionally a second wave of requests after the late answers; " +
+			"pipe: 2..12 pipelined GET/POST/HEAD requests written in issue order, answered in order, with and without slow answers, call timeouts and a PipelineClient.ReadTimeout shorter than the slowest answers (late responses), optionally a second wave of requests after the late answers, or slow uploads (request body streams held back past the call's deadline while the writer is inside the request write, further requests behind them); " +
 			"conc: 3..6 concurrent callers on a Client over two hosts with the same scripts; " +
 			"bodies are made of tag-carrying well-formed responses written in record-aligned segments; non-trivial = at least 2 calls (4 for conc); distinct = distinct input",
 		Assumptions: []string{
@@ -761,7 +821,7 @@ func init() {
 				emit("host", cfg, script)
 			}
 			for i := 0; i < nPipe; i++ {
-				emit("pipe", []byte{byte(r.Intn(4))}, r.Bytes(2*(2+r.Intn(11)), nil))
+				emit("pipe", []byte{byte(r.Intn(5))}, r.Bytes(2*(2+r.Intn(11)), nil))
 			}
 			for i := 0; i < nConc; i++ {
 				emit("conc", []byte{byte(r.Intn(4)), byte(r.Intn(4))}, r.Bytes(4, nil))
